@@ -331,6 +331,19 @@ PENDING = set()
 NOT_YET = "not claimed at this commit: the Lean model / correspondence for this property is not built yet (work in progress, see DESIGN.md §5)"
 
 
+def fix_count(pid, text):
+    """Keep the theorem count quoted in a claim text equal to what Props/Cxx.lean holds now."""
+    import re
+    src = (ROOT / 'lean' / 'NavisModel' / 'Props' / f'{pid}.lean').read_text()
+    src = re.sub(r'/-.*?-/', '', src, flags=re.S)
+    n = len(re.findall(r'^\s*theorem\s', src, flags=re.M))
+    for pat in (r'(Props/' + pid + r'\.lean, )(\d+)', r'()(\d+)(?= (?:Lean |unbounded )?theorems)'):
+        m = re.search(pat, text)
+        if m:
+            return text[:m.start(2)] + str(n) + text[m.end(2):]
+    return text + f' (Props/{pid}.lean: {n} theorems.)'
+
+
 def findings_note(pid):
     fs = []
     for f in [ROOT / 'known_findings.json'] + sorted((ROOT / 'known_findings').glob('*.json')):
@@ -357,7 +370,7 @@ def main():
                 'evidence_file': f'evidence/{pid}.json',
                 'replay_cmd_template': f'./check {pid} --replay {{path}}',
                 'engine': 'lean-proof+correspondence',
-                'level_claimed': {'category': 'proof', 'text': c['text'], 'design_ref': c['ref']},
+                'level_claimed': {'category': 'proof', 'text': fix_count(pid, c['text']), 'design_ref': c['ref']},
                 'level_note': COMMON_NOTE + c['note'] + findings_note(pid),
                 'technique': c['technique'],
             })
